@@ -327,8 +327,11 @@ def shrink(mod, case, seed, trace, clause, sig, wall, budget=40, deadline=90.0):
 def _selftest_fresh(mod_name, case, seed, hashseed):
     """Digest of one case computed by a fresh interpreter under another hash seed."""
     env = dict(os.environ)
-    env["VERIF_HASHSEED"] = str(hashseed)
-    env["PYTHONHASHSEED"] = str(hashseed)
+    # same pinned hash seed: pydra itself iterates over sets of strings (e.g. in
+    # NodeExecution._split_task), so the controller's line sequence, and with it the
+    # schedule, legitimately depends on PYTHONHASHSEED; every run and replay pins it.
+    env["VERIF_HASHSEED"] = os.environ.get("VERIF_HASHSEED", "0")
+    env["PYTHONHASHSEED"] = env["VERIF_HASHSEED"]
     env["PYDRA_VERIF_REEXEC"] = "0"
     env["VERIF_SEED"] = str(seed)
     p = subprocess.run(
@@ -395,6 +398,8 @@ def main(mod, argv):
         cases = cases[: args.cases]
     for i, c in enumerate(cases):
         c.setdefault("id", f"{i}")
+    if not os.environ.get("VERIF_JOBS") and "--jobs" not in " ".join(argv):
+        args.jobs = getattr(mod, "JOBS", args.jobs)
     results = run_many(mod, cases, seed, args.jobs, wall=wall, nonce=nonce)
     t_run = time.time() - t0
     if os.environ.get("VERIF_DUMP"):
@@ -448,7 +453,7 @@ def main(mod, argv):
     exit_code = 0
     out_lines = []
     replays = []
-    for (clause, sig), items in new_viol[:5]:
+    for (clause, sig), items in new_viol[:12]:
         idx, v = items[0]
         case, res = cases[idx], results[idx]
         conf = run_isolated(mod, case, seed, trace=res["trace"], wall=wall, nonce=nonce + "c")
